@@ -284,6 +284,19 @@ func c15(c *Ctx) {
 						if len(ret.Results) > 0 && core.ResultOf(ret.Results[0], call, 0) {
 							okRet = true
 						}
+						// the version dispatch written out around the decoder: the value returned is
+						// the item on the framed branch (merged with the unframed bytes on the other)
+						for _, rv := range ret.Results {
+							item := map[ssa.Value]bool{}
+							for _, rf := range *call.Referrers() {
+								if ex, isEx := rf.(*ssa.Extract); isEx && ex.Index == 0 {
+									item[ex] = true
+								}
+							}
+							if core.FlowsFrom(rv, item) {
+								okRet = true
+							}
+						}
 					}
 					r.Check(okRet, "R4.trailing", name+" returns-item", p.Pos(call.Pos()), "returns the decoded item", "the single-item decoder's item is not what is returned")
 				}
